@@ -962,6 +962,10 @@ func bucket(n int) int {
 
 func errClass(err error) string {
 	s := err.Error()
+	// the innermost cause names the defect; the wrapping names the instance
+	if i := strings.LastIndex(s, ": "); i >= 0 && i+2 < len(s) {
+		s = s[i+2:]
+	}
 	// drop instance names inside quotes
 	for _, q := range []string{"'", "\""} {
 		for {
